@@ -88,7 +88,7 @@ def per_type(ctx, config, w):
             continue
         Q = q.path
         forms = {}
-        for op, rhs_key, label in (("*", "quantities::rate::Rate<$TQ,%s>" % Q, "q*rate"), ("/", "quantities::rate::Rate<%s,$PQ>" % Q, "q/rate")):
+        for op, rhs_key, label in (("*", "quantities::rate::Rate<$G0,%s>" % Q, "q*rate"), ("/", "quantities::rate::Rate<%s,$G0>" % Q, "q/rate")):
             inst = "%s/%s/%s" % (config, Q, label)
             found = opforms.find_op(w, q.crate, op, Q, rhs_key)
             if len(found) != 1:
@@ -122,9 +122,9 @@ def per_type(ctx, config, w):
             # the like-quantity ratio used is Q / Q of this very type
             divs = [f for f in ev.calls_seen if f.get("trait") == "core::ops::arith::Div" and model.ty_key(f["args"][0]) == Q]
             deleg = [f for f in ev.calls_seen if (f.get("resolved") or {}).get("path") == U.resolve_item(RATE_MUL) and len(f["args"]) == 2 and model.ty_key(f["args"][1]) == Q]
-            gen_divs = [f for f in ev.calls_seen if f.get("trait") == "core::ops::arith::Div" and model.ty_key(f["args"][0]) == "$PQ"]
+            gen_divs = [f for f in ev.calls_seen if f.get("trait") == "core::ops::arith::Div" and model.ty_key(f["args"][0]).startswith("$")]
             ctx.ob("rate-op-ratio", inst, (len(divs) == 1 and model.ty_key(divs[0]["args"][1]) == Q and not deleg)
-                   or (not divs and len(deleg) == 1 and len(gen_divs) == 1 and model.ty_key(gen_divs[0]["args"][1]) == "$PQ"),
+                   or (not divs and len(deleg) == 1 and len(gen_divs) == 1 and model.ty_key(gen_divs[0]["args"][1]) == model.ty_key(gen_divs[0]["args"][0])),
                    "the like-quantity ratio is not `%s / %s`" % (Q, Q), b["span"], nontrivial=False)
             forms[op] = (t if not probs else None, b, imp) if t is not None else (None, b, imp)
             n += 1
